@@ -13,7 +13,7 @@ keeps the discipline under which syntactic identity is cell identity:
     dependencies of a tracked memory cell matter -- yet the same text still names the same cell
     during one run.
 Graphs are loop free (edges go forward only)."""
-from miasm.expression.expression import ExprInt, ExprMem, ExprSlice
+from miasm.expression.expression import ExprInt, ExprMem, ExprSlice, ExprOp
 from miasm.ir.ir import AssignBlock, IRBlock
 
 from vf import irgen
@@ -26,6 +26,16 @@ class DGGen(irgen.IRGen):
         self.derived = ctx.gpr[1]          # EBX / RBX
         self.derived_ready = False
         self.pure = [g for g in ctx.gpr if g not in ctx.ptrs and g is not self.derived]
+
+    def value(self, n, depth):
+        # a modelled call (what LifterModelCall emits for CALL: ret = call_func_ret(addr, sp)): an
+        # uninterpreted operator whose arguments are sources like any other
+        if depth >= 1 and self.rng.random() < 0.08:
+            c = ExprOp("call_func_ret", self.value(self.bits, depth - 1), self.value(self.bits, 0))
+            if n == self.bits:
+                return c
+            return ExprSlice(c, 0, n) if n < self.bits else c.zeroExtend(n)
+        return super(DGGen, self).value(n, depth)
 
     def derived_init(self):
         """AssignBlock giving the derived pointer its only value"""
